@@ -4,6 +4,8 @@
   EVERY event (hence every order in which start requests, results, retry requests, script results,
   signals and reporter errors can reach the dispatcher).
 -/
+import NextestModel.Thm.C07
+import NextestModel.Thm.C02
 import NextestModel.Model.Dispatcher
 import NextestModel.Gen.Tables
 namespace NextestModel.C10
@@ -541,5 +543,41 @@ theorem cancel_order_matches_source :
     Gen.cancelReasonOrder =
       [CancelReason.setupScriptFailure, .testFailure, .reportError, .signal, .interrupt, .secondSignal].map reasonName := by
   decide
+
+/-! ## Dispatcher and unit together -/
+
+/-- does the dispatcher, in state `s`, acknowledge the start-type request `e`? (a panic answers nothing) -/
+def acks (s : DState) (e : DEvent) : Bool :=
+  match step s e with
+  | .ok (_, o) => decide (o.reply = .ack)
+  | .error _ => false
+
+/-- **a unit that asks a cancelled dispatcher for permission to start spawns nothing**: composing the dispatcher model with the
+    attempt loop of `run_test_instance` (`Model/Attempts`) — whatever the retry policy and whatever the test would do -/
+theorem cancelled_dispatcher_starts_no_unit (s : DState) (hc : s.cancel.isSome) (i : Nat) (p : Classify.Policy)
+    (outcome : Nat → Res) (ackRetry : Nat → Bool) (evs : List Attempts.XEv)
+    (h : Attempts.runTestInstance p { outcome := outcome, ackStart := acks s (.started i), ackRetry := ackRetry } = some evs) :
+    Attempts.spawns evs = [] ∧ Attempts.finisheds evs = [] := by
+  have hno : acks s (.started i) = false := by
+    unfold acks
+    cases hs : step s (.started i) with
+    | error e => rfl
+    | ok r =>
+      obtain ⟨s', o⟩ := r
+      have := (no_start_after_cancel s _ s' o hc hs).1
+      simp [this]
+  exact NextestModel.C02.refused_start_runs_nothing p _ evs h hno
+
+/-- **and a unit already running when cancellation begins makes no further attempt**: if every retry request it sends from
+    attempt `k₀` on reaches a cancelled dispatcher (cancellation never recedes: `cancel_monotone`), no attempt `≥ k₀` is spawned -/
+theorem cancelled_dispatcher_refuses_retries (p : Classify.Policy) (env : Attempts.Env) (evs : List Attempts.XEv)
+    (h : Attempts.runTestInstance p env = some evs) (k0 : Nat) (hk0 : 1 < k0)
+    (hrefuse : ∀ k, k0 ≤ k → env.ackRetry k = false) : ∀ k ∈ Attempts.spawns evs, k < k0 := by
+  intro k hk
+  rcases NextestModel.C07.no_retry_unless_acknowledged p env evs h k hk with h1 | h2
+  · omega
+  · cases Nat.lt_or_ge k k0 with
+    | inl hlt => exact hlt
+    | inr hge => rw [hrefuse k hge] at h2; cases h2
 
 end NextestModel.C10
